@@ -1034,4 +1034,139 @@ def demoSceneFinish : Scene :=
 #guard demoSceneFinish.graph.all fun e => demoSceneFinish.rects.all fun R =>
   hasConnIn demoSceneFinish.conns R || edgeAvoids R e.1.x e.1.y e.2.x e.2.y
 
+/-! ### non-vacuity (fAudit): the hypotheses of the theorems above hold JOINTLY on closed scenes, and the theorems
+    are instantiated there.  `hanan_one_bend_partial` runs through `bend_path`, `leg_h/v`, `line_path_h/v`,
+    `crossing_shared`, `endpoint_on_hline/vline`, `lines_disjoint`, so its instances witness those as well. -/
+
+abbrev allD : Dirs := ⟨true, true, true, true⟩
+-- non-vacuity of `hanan_path_exists_partial`
+example : HPath demoScene2.graph 3 ⟨0, 3, .conn 0⟩ ⟨6, 3, .conn 1⟩ :=
+  hanan_path_exists_partial demoScene2 0 1 ⟨0, 3, allD⟩ ⟨6, 3, allD⟩
+    (by decide +kernel) (by decide +kernel) rfl (by decide +kernel) rfl rfl
+    (by decide +kernel) (by decide +kernel)
+    (by
+      intro k c hk
+      have e : demoScene2.fixDirs = [⟨0, 3, allD⟩, ⟨6, 3, allD⟩] := by decide +kernel
+      rw [e] at hk
+      rcases k with _ | _ | k <;> simp at hk <;> subst hk <;> intro _ h1 h2 <;> revert h1 h2 <;> decide +kernel)
+
+
+
+-- non-vacuity of `hanan_path_exists_L_partial`
+example : HPath demoScene3.graph 3 ⟨0, 3, .conn 0⟩ ⟨6, 3, .node⟩ ∧ VPath demoScene3.graph 6 ⟨6, 3, .node⟩ ⟨6, 9, .conn 1⟩ :=
+  hanan_path_exists_L_partial demoScene3 0 1 ⟨0, 3, allD⟩ ⟨6, 9, allD⟩
+    (by decide +kernel) (by decide +kernel) (by decide +kernel) (by decide +kernel) rfl rfl
+    (by decide +kernel) (by decide +kernel) (by decide +kernel)
+    (by
+      intro k c hk
+      have e : demoScene3.fixDirs = [⟨0, 3, allD⟩, ⟨6, 9, allD⟩] := by decide +kernel
+      rw [e] at hk
+      rcases k with _ | _ | k <;> simp at hk <;> subst hk <;> decide +kernel)
+    (by
+      intro k c hk
+      have e : demoScene3.fixDirs = [⟨0, 3, allD⟩, ⟨6, 9, allD⟩] := by decide +kernel
+      rw [e] at hk
+      rcases k with _ | _ | k <;> simp at hk <;> subst hk <;> decide +kernel)
+
+-- non-vacuity of `hanan_one_bend_partial`, two orientations
+example : UPath demoScene3.graph ⟨0, 3, .conn 0⟩ ⟨6, 9, .conn 1⟩ :=
+  hanan_one_bend_partial demoScene3 0 1 ⟨0, 3, allD⟩ ⟨6, 9, allD⟩
+    (by decide +kernel) (by decide +kernel) (by decide +kernel) (by decide +kernel)
+    ⟨fun _ => rfl, fun _ => rfl⟩ ⟨fun _ => rfl, fun _ => rfl⟩
+    (by decide +kernel) (by decide +kernel) (by decide +kernel)
+    (by
+      intro k c hk
+      have e : demoScene3.fixDirs = [⟨0, 3, allD⟩, ⟨6, 9, allD⟩] := by decide +kernel
+      rw [e] at hk
+      rcases k with _ | _ | k <;> simp at hk <;> subst hk <;> unfold Btw <;> decide +kernel)
+    (by
+      intro k c hk
+      have e : demoScene3.fixDirs = [⟨0, 3, allD⟩, ⟨6, 9, allD⟩] := by decide +kernel
+      rw [e] at hk
+      rcases k with _ | _ | k <;> simp at hk <;> subst hk <;> unfold Btw <;> decide +kernel)
+
+example : UPath demoScene3.graph ⟨6, 9, .conn 1⟩ ⟨0, 3, .conn 0⟩ :=
+  hanan_one_bend_partial demoScene3 1 0 ⟨6, 9, allD⟩ ⟨0, 3, allD⟩
+    (by decide +kernel) (by decide +kernel) (by decide +kernel) (by decide +kernel)
+    ⟨fun _ => rfl, fun _ => rfl⟩ ⟨fun _ => rfl, fun _ => rfl⟩
+    (by decide +kernel) (by decide +kernel) (by decide +kernel)
+    (by
+      intro k c hk
+      have e : demoScene3.fixDirs = [⟨0, 3, allD⟩, ⟨6, 9, allD⟩] := by decide +kernel
+      rw [e] at hk
+      rcases k with _ | _ | k <;> simp at hk <;> subst hk <;> unfold Btw <;> decide +kernel)
+    (by
+      intro k c hk
+      have e : demoScene3.fixDirs = [⟨0, 3, allD⟩, ⟨6, 9, allD⟩] := by decide +kernel
+      rw [e] at hk
+      rcases k with _ | _ | k <;> simp at hk <;> subst hk <;> unfold Btw <;> decide +kernel)
+/-- two separated boxes sharing the side line y = 2 -/
+def demoScene4 : Scene := ⟨[⟨0, 0, 1, 2⟩, ⟨3, 2, 4, 5⟩], []⟩
+
+-- non-vacuity of `side_on_hline_separated` (and of `side_on_hline`, which it instantiates)
+example : ∃ p ∈ demoScene4.lines.hs, p.1.p = 2 ∧ (⟨0, .node⟩ : LV) ∈ p.2 ∧ (⟨1, .node⟩ : LV) ∈ p.2 ∧
+    p.1.b ≤ (findLimits demoScene4.lo demoScene4.hi (activeAt (demoScene4.rects.eraseIdx 0) 2) ⟨0, 0, 1, 2⟩ 2).minLimit ∧
+    (findLimits demoScene4.lo demoScene4.hi (activeAt (demoScene4.rects.eraseIdx 0) 2) ⟨0, 0, 1, 2⟩ 2).maxLimit ≤ p.1.f :=
+  side_on_hline_separated demoScene4 0 ⟨0, 0, 1, 2⟩ rfl
+    (by
+      intro j k a b hne hj hk
+      have e : demoScene4.rects = [⟨0, 0, 1, 2⟩, ⟨3, 2, 4, 5⟩] := rfl
+      rw [e] at hj hk
+      rcases j with _ | _ | j <;> rcases k with _ | _ | k <;> simp at hj hk hne <;> subst hj <;> subst hk <;>
+        unfold AdaptaVerif.Lemmas.OrthVis.Sep <;> decide +kernel)
+    (by decide +kernel) (by decide +kernel) 2 (Or.inr rfl)
+-- the right limit there is the other box's left side (3), not the sentinel
+#guard (findLimits demoScene4.lo demoScene4.hi (activeAt (demoScene4.rects.eraseIdx 0) 2) ⟨0, 0, 1, 2⟩ 2).maxLimit == 3
+
+-- non-vacuity of `line_adjacent_joined_h`: row y = 3 of `demoScene3`, the end point (0,3) and the dummy vertex (2,3)
+example : ((⟨0, 3, .conn 0⟩, ⟨2, 3, .node⟩) : GV × GV) ∈ demoScene3.graph :=
+  line_adjacent_joined_h demoScene3 ⟨-1, 10, 3, [⟨0, .conn 0⟩, ⟨0, .node⟩]⟩
+    [⟨0, .conn 0⟩, ⟨0, .node⟩, ⟨2, .node⟩, ⟨4, .node⟩, ⟨6, .node⟩] (List.mem_of_getElem? (i := 2) (by decide +kernel))
+    ⟨0, .conn 0, true, true⟩ ⟨2, .node, true, true⟩ (List.mem_of_getElem? (i := 1) (by decide +kernel)) (List.mem_of_getElem? (i := 2) (by decide +kernel)) (by decide +kernel)
+    (by decide +kernel) (fun _ => rfl) (fun _ => rfl)
+
+-- non-vacuity of `line_adjacent_joined_v`: column x = 6 of `demoScene3`, the dummy vertex (6,7) and the end point (6,9)
+example : ((⟨6, 7, .node⟩, ⟨6, 9, .conn 1⟩) : GV × GV) ∈ demoScene3.graph :=
+  line_adjacent_joined_v demoScene3 ⟨-1, 10, 6, []⟩
+    [⟨5, .node⟩, ⟨7, .node⟩, ⟨3, .node⟩, ⟨9, .conn 1⟩, ⟨9, .node⟩] (List.mem_of_getElem? (i := 3) (by decide +kernel))
+    ⟨7, .node, true, true⟩ ⟨9, .conn 1, true, true⟩ (List.mem_of_getElem? (i := 2) (by decide +kernel)) (List.mem_of_getElem? (i := 4) (by decide +kernel)) (by decide +kernel)
+    (by decide +kernel) (fun _ => rfl) (fun _ => rfl)
+
+-- non-vacuity of `line_nodes_chain_h`: the four dummy vertices of row y = 3 of `demoScene3` (three edges)
+example : ∀ e ∈ pairs [(⟨0, .node, true, true⟩ : BP), ⟨2, .node, true, true⟩, ⟨4, .node, true, true⟩, ⟨6, .node, true, true⟩],
+    ((⟨e.1.t, 3, e.1.k⟩, ⟨e.2.t, 3, e.2.k⟩) : GV × GV) ∈ demoScene3.graph :=
+  line_nodes_chain_h demoScene3 ⟨-1, 10, 3, [⟨0, .conn 0⟩, ⟨0, .node⟩]⟩
+    [⟨0, .conn 0⟩, ⟨0, .node⟩, ⟨2, .node⟩, ⟨4, .node⟩, ⟨6, .node⟩] (List.mem_of_getElem? (i := 2) (by decide +kernel))
+    [] [[⟨0, .node, true, true⟩, ⟨0, .conn 0, true, true⟩], [⟨2, .node, true, true⟩], [⟨4, .node, true, true⟩],
+        [⟨6, .node, true, true⟩]] [] (by decide +kernel) _
+    (.cons (by simp) rfl (.cons (by simp) rfl (.cons (by simp) rfl (.cons (by simp) rfl .nil))))
+
+-- non-vacuity of `line_nodes_chain_v`: column x = 6 of `demoScene3`, a proper middle run (groups 5, 7)
+example : ∀ e ∈ pairs [(⟨5, .node, true, true⟩ : BP), ⟨7, .node, true, true⟩],
+    ((⟨6, e.1.t, e.1.k⟩, ⟨6, e.2.t, e.2.k⟩) : GV × GV) ∈ demoScene3.graph :=
+  line_nodes_chain_v demoScene3 ⟨-1, 10, 6, []⟩
+    [⟨5, .node⟩, ⟨7, .node⟩, ⟨3, .node⟩, ⟨9, .conn 1⟩, ⟨9, .node⟩] (List.mem_of_getElem? (i := 3) (by decide +kernel))
+    [[⟨3, .node, true, true⟩]] [[⟨5, .node, true, true⟩], [⟨7, .node, true, true⟩]]
+    [[⟨9, .node, true, true⟩, ⟨9, .conn 1, true, true⟩]] (by decide +kernel) _
+    (.cons (by simp) rfl (.cons (by simp) rfl .nil))
+
+-- non-vacuity of `endpoint_on_hline`, `endpoint_on_vline` (premises of the first implication hold), `endpoint_dummy_on_hline`
+example := endpoint_on_hline demoScene3 0 ⟨0, 3, allD⟩ (by decide +kernel) rfl
+example := (endpoint_on_vline demoScene3 1 ⟨6, 9, allD⟩ (by decide +kernel)).1 rfl (by decide +kernel)
+example := (endpoint_on_vline demoScene3 0 ⟨0, 3, allD⟩ (by decide +kernel)).2 rfl (by decide +kernel)
+example := endpoint_dummy_on_hline demoScene3 0 ⟨0, 3, allD⟩ (by decide +kernel) rfl (by decide +kernel)
+  (Or.inr ⟨rfl, by decide +kernel⟩)
+
+-- non-vacuity of `crossing_shared`: row y = 3 and column x = 6 of `demoScene3`
+example := crossing_shared demoScene3 (⟨-1, 10, 3, [⟨0, .conn 0⟩, ⟨0, .node⟩]⟩, [⟨0, .conn 0⟩, ⟨0, .node⟩, ⟨2, .node⟩, ⟨4, .node⟩, ⟨6, .node⟩])
+  (⟨-1, 10, 6, []⟩, [⟨5, .node⟩, ⟨7, .node⟩, ⟨3, .node⟩, ⟨9, .conn 1⟩, ⟨9, .node⟩])
+  (List.mem_of_getElem? (i := 2) (by decide +kernel)) (List.mem_of_getElem? (i := 3) (by decide +kernel)) (by decide +kernel)
+
+-- non-vacuity of `graph_edge_clear`: no end point of `demoScene2` is inside its box (and the graph is not empty)
+example := graph_edge_clear demoScene2 (by
+  intro R hR h
+  rw [← hasConnIn_iff] at h
+  revert R; decide +kernel)
+#guard !demoScene2.graph.isEmpty
+
 end AdaptaVerif.Props.C05OrthVis
